@@ -160,6 +160,17 @@ def correspondence(ctx):
         ori = rng.choice(["QSW", "TNW"])
         chrono = rng.random() < 0.85
         mans = gen_mans(rng, period, chrono)
+        edge = "none"
+        if mans and rng.random() < 0.35:
+            # boundary dates: exactly at an impulse, at the start / stop of a thrust, and a second maneuver dated exactly there
+            m = rng.choice(mans)
+            edge = rng.choice(["at-date", "at-stop", "coincident"])
+            if m[0] == "i":
+                t = m[1]
+            else:
+                t = m[1] if edge == "at-date" else m[2]
+            if edge == "coincident":
+                mans = sorted(mans + [("i", t, [rng.uniform(-0.5, 0.5) for _ in range(3)])], key=lambda mm: mm[1]) if chrono else mans + [("i", t, [0.1, -0.2, 0.05])]
         orb, prop, d0 = make(ori, sma, x, mans)
         n = float(prop.n)
         real = orb.propagate(timedelta(seconds=t))
@@ -167,7 +178,7 @@ def correspondence(ctx):
         sp = max(abs(v) for v in x[:3]) + abs(t) * (max(abs(v) for v in x[3:]) + 2.0) + 1e-3 * t * t
         meta.append(("propagate", list(map(float, real)), sp, sp * n + 2.0, {"ori": ori, "sma": sma, "t": t, "x": x, "mans": mans}))
         napplied = sum(1 for m in mans if t >= m[1] > 0)
-        out.count(key=reqs[-1], nontrivial=t != 0, kind="propagate-" + ori, mans=len(mans), applied=napplied, chrono=chrono)
+        out.count(key=reqs[-1], nontrivial=t != 0, kind="propagate-" + ori, mans=len(mans), applied=napplied, chrono=chrono, edge=edge)
     helper_formulas(out, rng, ctx.n(40, 400))
     replies = core.Driver().run(reqs)
     for req, (kind, real, sp, sv, inp), rep in zip(reqs, meta, replies):
@@ -260,6 +271,18 @@ def oracle(ctx, widened):
         if not np.allclose(r, np.array(P6(list(s0))), rtol=1e-9, atol=1e-9 * scale):
             out.fail("tnw-permutation", "TNW result is not the axis permutation of the QSW result", {"sma": sma, "t": t, "x": x},
                      observed=list(map(float, r)), expected=P6(list(map(float, s0))))
+        # 3b. two-leg propagation must not depend on which Hill frames were created in between
+        first, second = rng.choice([("TNW", "QSW"), ("QSW", "TNW")])
+        xa = P6(x) if first == "TNW" else x
+        orbA, propA, _ = make(first, sma, xa)
+        direct = np.array(orbA.propagate(timedelta(seconds=q(t1 + t2))))
+        leg1 = orbA.propagate(timedelta(seconds=t1))
+        make(second, sma, x)                      # another Hill frame of the other orientation comes into existence
+        two = np.array(leg1.propagate(timedelta(seconds=t2)))
+        out.count(key=("compose-interleaved", first, sma, t1, t2), kind="compose-interleaved-" + first)
+        if not np.allclose(two, direct, rtol=1e-7, atol=1e-7 * scale):
+            out.fail("compose-interleaved-frames", f"two-leg propagation in {first} changes when a {second} Hill frame is created between the legs",
+                     {"sma": sma, "t1": t1, "t2": t2, "x": xa, "first": first}, observed=list(map(float, two)), expected=list(map(float, direct)))
         # 4. an impulse applies exactly once: jump at its date, and composition across it
         tm = q(rng.uniform(0.05, 0.9) * period)
         dv = [rng.uniform(-0.5, 0.5) for _ in range(3)]
@@ -295,6 +318,7 @@ def oracle(ctx, widened):
             out.fail("hill-residual-thrust", "state during a continuous maneuver violates the forced Hill equations",
                      {"sma": sma, "t": tq, "x": x, "man": ["c", ts, te, acc]}, observed=list(map(float, d)), expected=list(map(float, rhs)))
     helpers(out, rng, 60 if (widened or ctx.thorough) else 12)
+    vbar(out, rng, 40 if (widened or ctx.thorough) else 8)
     out.sample({"checks": "hill residual (free, thrust), compose, tnw permutation, impulse jump, compose across impulse, CWHelper outcomes"})
     return out
 
@@ -359,6 +383,34 @@ def helpers(out, rng, N):
                     if not (abs(rq[0]) < 2e-5 * (abs(dist) + 1) and abs(rq[1] - tang - dist) < 2e-5 * (abs(dist) + 1) and np.all(np.abs(rq[3:]) < 2e-5 * prop.n * (abs(dist) + 1) + 1e-9)):
                         out.fail("helper-" + name, f"{name} boost does not move the chaser by the announced along-track distance and leave it at rest",
                                  {"ori": ori, "continuous": cont, "sma": sma, "tangential": dist}, observed=list(map(float, rq)), expected=[0, tang + dist, 0, 0, 0, 0])
+
+
+def vbar(out, rng, N):
+    import numpy as np
+    from beyond.dates import timedelta
+    from beyond.orbits import Orbit
+    from beyond.utils.cwhelper import CWHelper
+    for _ in range(N):
+        for ori in ("QSW", "TNW"):
+            sma = rng.choice([6.7e6, 7.0e6, 4.2164e7])
+            orb0, prop, d0 = make(ori, sma, [0] * 6)
+            hp = CWHelper(prop)
+            m6 = np.array(prop._mat6)
+            tang0 = rng.uniform(-500, 500)
+            dist = rng.choice([-1, 1]) * rng.uniform(20, 400)
+            v = rng.uniform(0.05, 0.8)
+            orb = Orbit(m6 @ [0, tang0, 0, 0, 0, 0], d0, "cartesian", "Hill", prop)
+            start = d0 + timedelta(seconds=30)
+            orb.maneuvers = list(hp.vbar_linear(dist, start, v))
+            dur = orb.maneuvers[1].duration.total_seconds()
+            for when, exp_v in ((dur + 1e-3, 0.0), (dur, 0.0), (dur / 2, math.copysign(v, dist))):
+                end = orb.propagate(start + timedelta(seconds=when))
+                rq = m6.T @ np.array(end)
+                frac = min(when, dur) / dur
+                out.count(key=("vbar", ori, sma, dist, v, when), kind="helper-vbar")
+                if not (abs(rq[0]) < 1e-4 and abs(rq[1] - tang0 - dist * frac) < 1e-4 * (abs(dist) + 1) and abs(rq[4] - exp_v) < 1e-7 and abs(rq[3]) < 1e-6):
+                    out.fail("helper-vbar", "V-bar linear approach does not stay on the V-bar / cover the announced distance / end at rest",
+                             {"ori": ori, "sma": sma, "tangential": dist, "dv": v, "at": when, "duration": dur}, observed=list(map(float, rq)), expected=[0, tang0 + dist * frac, 0, 0, exp_v, 0])
 
 
 def replay(f):
